@@ -1411,10 +1411,22 @@ class FunctionScope(Scope):
         if not new_scopes:
             return {LEAVES_SCOPE: []}
         all_variables = dict.fromkeys(chain.from_iterable(new_scopes))
+
+        def nodes_in(scope: SubScope, varname: Varname) -> Sequence[Node]:
+            nodes = scope.get(varname)
+            if nodes is None or (
+                not nodes and isinstance(varname, CompositeVariable)
+            ):
+                # An empty list is how set() clears the narrowing of a composite
+                # (x.a after `x = ...`, d[0][1] after `d[0] = ...`). That branch
+                # must contribute "not narrowed", exactly like a branch that never
+                # narrowed it; contributing nothing would let the narrowing made in
+                # the other branches survive the merge.
+                return [_UNINITIALIZED]
+            return nodes
+
         return {
-            varname: uniq_chain(
-                scope.get(varname, [_UNINITIALIZED]) for scope in new_scopes
-            )
+            varname: uniq_chain(nodes_in(scope, varname) for scope in new_scopes)
             for varname in all_variables
         }
 
